@@ -14,7 +14,7 @@ mod vk_range {
         (ConIterOfRange::new(s..e), s, e, len)
     }
 
-    // @harness name=range_next props=C01,C02,C04,C05,C09,C16 kind=complete
+    // @harness name=range_next inputs=s,e,b scenario="kind=range s={s} e={e} c={b} ops=next" props=C01,C02,C04,C05,C09,C16 kind=complete
     #[kani::proof]
     #[kani::stub(crate::iter::atomic_counter::AtomicCounter::fetch_and_add, c_faa)]
     #[kani::stub(crate::iter::atomic_counter::AtomicCounter::fetch_and_increment, c_inc)]
@@ -37,7 +37,7 @@ mod vk_range {
         }
     }
 
-    // @harness name=range_next_value props=C01,C02,C05,C16 kind=complete
+    // @harness name=range_next_value inputs=s,e,b scenario="kind=range s={s} e={e} c={b} ops=next" props=C01,C02,C05,C16 kind=complete
     #[kani::proof]
     #[kani::stub(crate::iter::atomic_counter::AtomicCounter::fetch_and_add, c_faa)]
     #[kani::stub(crate::iter::atomic_counter::AtomicCounter::fetch_and_increment, c_inc)]
@@ -49,7 +49,7 @@ mod vk_range {
         assert!(r == if b < len { Some(s + b) } else { None }, "[C01 C02 C05 C16 next] next() is start + position, or None past the end");
     }
 
-    // @harness name=range_chunk props=C01,C02,C03,C04,C05,C09,C16 kind=complete bound="contents beyond the first element checked for chunks of <= 3"
+    // @harness name=range_chunk inputs=s,e,n,b scenario="kind=range s={s} e={e} c={b} ops=chunk:{n}" props=C01,C02,C03,C04,C05,C09,C16 kind=complete bound="contents beyond the first element checked for chunks of <= 3"
     #[kani::proof]
     #[kani::unwind(5)]
     #[kani::stub(crate::iter::atomic_counter::AtomicCounter::fetch_and_add, c_faa)]
@@ -87,7 +87,7 @@ mod vk_range {
         }
     }
 
-    // @harness name=range_buffered props=C01,C02,C03,C05,C16 kind=complete bound="contents beyond the first element checked for chunks of <= 3"
+    // @harness name=range_buffered inputs=s,e,n,b scenario="kind=range s={s} e={e} c={b} ops=buffered:{n}" props=C01,C02,C03,C05,C16 kind=complete bound="contents beyond the first element checked for chunks of <= 3"
     #[kani::proof]
     #[kani::unwind(5)]
     #[kani::stub(crate::iter::atomic_counter::AtomicCounter::fetch_and_add, c_faa)]
@@ -123,7 +123,7 @@ mod vk_range {
         }
     }
 
-    // @harness name=range_skip props=C06 kind=complete
+    // @harness name=range_skip inputs=s,e scenario="kind=range s={s} e={e} c=0 ops=next,skip,next,len,seq" props=C06 kind=complete
     #[kani::proof]
     #[kani::stub(crate::iter::atomic_counter::AtomicCounter::fetch_and_add, c_faa)]
     #[kani::stub(crate::iter::atomic_counter::AtomicCounter::fetch_and_increment, c_inc)]
@@ -137,7 +137,7 @@ mod vk_range {
         assert!(first_write().arg >= len, "[C06 skip-val] the stored value is at or past the end");
     }
 
-    // @harness name=range_len props=C11,C05,C06 kind=complete
+    // @harness name=range_len inputs=s,e,which,c scenario="kind=range s={s} e={e} c={c} ops=len" props=C11,C05,C06 kind=complete
     #[kani::proof]
     #[kani::stub(crate::iter::atomic_counter::AtomicCounter::fetch_and_add, c_faa)]
     #[kani::stub(crate::iter::atomic_counter::AtomicCounter::fetch_and_increment, c_inc)]
@@ -160,7 +160,7 @@ mod vk_range {
         }
     }
 
-    // @harness name=range_into_seq props=C10,C16 kind=complete
+    // @harness name=range_into_seq inputs=s,e,c scenario="kind=range s={s} e={e} c={c} ops=seq" props=C10,C16 kind=complete
     #[kani::proof]
     #[kani::stub(crate::iter::atomic_counter::AtomicCounter::fetch_and_add, c_faa)]
     #[kani::stub(crate::iter::atomic_counter::AtomicCounter::fetch_and_increment, c_inc)]
